@@ -113,6 +113,13 @@ func TestC14_Storage(t *testing.T) {
 				c.fail("C14/receipt/rlp/encode-error", "%v", err)
 				break
 			}
+			if keep := append([]byte(nil), enc...); true {
+				disturbEncoders()
+				if !bytes.Equal(enc, keep) {
+					c.fail("C14/receipt/rlp/encoding-not-stable", "the bytes returned by rlp.EncodeToBytes(receipt) changed while other objects were encoded: %x -> %x", keep, enc)
+					enc = keep
+				}
+			}
 			var rr types.Receipt
 			if err := rlp.DecodeBytes(enc, &rr); err != nil {
 				c.fail("C14/receipt/rlp/decode-error", "rlp decode of an encoded receipt failed: %v", err)
